@@ -4,7 +4,7 @@
    broken session evaluator cannot go unnoticed.  The obligations about the
    CURRENT source are generated into C16_*.v on every run. *)
 Require Import LT.History.
-From Coq Require Import List Bool Arith.
+From Coq Require Import List Bool Arith Lia.
 Import ListNotations.
 
 (* keys: 0 memoised, read from data, NOT cleared; 1 memoised, cleared, reads key 0 and data;
@@ -62,3 +62,42 @@ Print Assumptions history_refuted_stale.
 Print Assumptions exec_sound.
 Print Assumptions checked_accepted.
 Print Assumptions cached_equals_uncached.
+
+(* ---- node bookkeeping: attach once per terminal, detach as often ------------------------------
+   A component is attached to node n once per occurrence of n in its terminal list l (Cpt.__init__);
+   [attach]/[detach] are the counters kept by Node.append / Node.remove.  Detaching over the very
+   same list restores every counter; detaching over the list without repetitions (set(cpt.nodes))
+   leaves a residue as soon as a node occurs twice. *)
+Definition bump (f : nat -> nat) (c : nat -> nat) (n : nat) : nat -> nat := fun m => if Nat.eqb m n then f (c m) else c m.
+Definition attach (l : list nat) (c : nat -> nat) := fold_left (bump S) l c.
+Definition detach (l : list nat) (c : nat -> nat) := fold_left (bump pred) l c.
+
+Lemma attach_count l : forall c n, attach l c n = c n + count_occ Nat.eq_dec l n.
+Proof.
+  induction l as [|a l IH]; intros c n; cbn; [lia|].
+  rewrite IH. unfold bump. destruct (Nat.eq_dec a n) as [->|Hne].
+  - rewrite Nat.eqb_refl. lia.
+  - destruct (Nat.eqb n a) eqn:E; [apply Nat.eqb_eq in E; congruence | lia].
+Qed.
+Lemma detach_count l : forall c n, detach l c n = c n - count_occ Nat.eq_dec l n.
+Proof.
+  induction l as [|a l IH]; intros c n; cbn; [lia|].
+  rewrite IH. unfold bump. destruct (Nat.eq_dec a n) as [->|Hne].
+  - rewrite Nat.eqb_refl. lia.
+  - destruct (Nat.eqb n a) eqn:E; [apply Nat.eqb_eq in E; congruence | lia].
+Qed.
+Theorem detach_as_attached : forall l c n, detach l (attach l c) n = c n.
+Proof. intros. rewrite detach_count, attach_count. lia. Qed.
+Theorem detach_without_repetitions_leaves_residue : forall l c n,
+  count_occ Nat.eq_dec l n >= 2 -> detach (nodup Nat.eq_dec l) (attach l c) n > c n.
+Proof.
+  intros l c n H. rewrite detach_count, attach_count.
+  assert (count_occ Nat.eq_dec (nodup Nat.eq_dec l) n <= 1).
+  { pose proof (NoDup_nodup Nat.eq_dec l) as ND. rewrite (NoDup_count_occ Nat.eq_dec) in ND. apply ND. }
+  lia.
+Qed.
+(* E1 3 0 2 3 3: terminals [3; 0; 2; 3] *)
+Example vcvs_shared_node : detach (nodup Nat.eq_dec [3; 0; 2; 3]) (attach [3; 0; 2; 3] (fun _ => 0)) 3 = 1.
+Proof. vm_compute. reflexivity. Qed.
+Print Assumptions detach_as_attached.
+Print Assumptions detach_without_repetitions_leaves_residue.
